@@ -47,7 +47,7 @@ Lemma failed_create_noop progs fuel cx value init s o l s' :
   exists address orc, oracle s = address :: orc /\ untouched (create_pre cx address orc s) s'.
 Proof.
   intros W H F.
-  destruct (do_create_ok progs (run progs fuel) (run_ok progs fuel) _ _ _ _ _ _ _ W H) as (_ & N).
+  destruct (do_create_ok progs (run progs fuel) (run_ok progs fuel) _ _ _ _ _ _ _ W H) as (_ & N & _).
   destruct (N F) as [N1 | (a & orc & O & N2)]; [left | right; exists a, orc; split; auto]; apply noop_untouched; auto.
 Qed.
 
@@ -59,18 +59,18 @@ Proof. intros W CF PE H. eapply static_call_same; eauto. apply run_ok. Qed.
 Lemma static_frame_pure progs fuel cx c s o l s' :
   wf s -> custom_free progs -> pc_exist (dat s) -> static cx = true ->
   run progs fuel cx c s = (o, l, s') -> same s s'.
-Proof. intros W CF PE St H. destruct (run_ok progs fuel _ _ _ _ _ _ W H) as [_ S]. apply S; auto. Qed.
+Proof. intros W CF PE St H. destruct (run_ok progs fuel _ _ _ _ _ _ W H) as (_ & S & _). apply S; auto. Qed.
 
 Lemma failed_authcall_noop progs fuel cx authority target value s o l s' :
   wf s -> do_authcall (run progs fuel) cx authority target value s = (o, l, s') -> is_fail o = true ->
   untouched s s' \/ untouched (authcall_pre authority s) s'.
 Proof.
   intros W H F.
-  destruct (do_authcall_ok progs (run progs fuel) (run_ok progs fuel) _ _ _ _ _ _ _ _ W H) as (_ & N).
+  destruct (do_authcall_ok progs (run progs fuel) (run_ok progs fuel) _ _ _ _ _ _ _ _ W H) as (_ & N & _).
   destruct (N F); [left | right]; apply noop_untouched; auto.
 Qed.
 
-Lemma wf_prepare th ti s orc : wf s -> wf (with_oracle (prepare th ti s) orc).
+Lemma wf_prepare th ti s orc g : wf s -> wf (with_gas (with_oracle (prepare th ti s) orc) g).
 Proof. auto. Qed.
 
 Lemma exec_top_ok progs fuel t s o l s' :
@@ -86,7 +86,7 @@ Proof.
   intros W H. unfold exec_top in H. destruct (t_kind t).
   - destruct (do_call_ok progs (run progs fuel) (run_ok progs fuel) _ _ _ _ _ _ _ _ W H) as (G & N & _).
     split; auto. intros F. apply noop_untouched; auto.
-  - destruct (do_create_ok progs (run progs fuel) (run_ok progs fuel) _ _ _ _ _ _ _ W H) as (G & _).
+  - destruct (do_create_ok progs (run progs fuel) (run_ok progs fuel) _ _ _ _ _ _ _ W H) as (G & _ & _).
     split; auto. intros F. eapply failed_create_noop; eauto.
   - inversion H; subst. split; [apply good_refl; auto | intros F; discriminate].
 Qed.
@@ -97,7 +97,7 @@ Lemma tx_logs_own progs fuel t s o l s' :
   forall h, h <> t_hash t -> logs (dat s') h = logs (dat s) h.
 Proof.
   intros W H h Hh. unfold exec_tx in H.
-  destruct (exec_top_ok _ _ _ _ _ _ _ (wf_prepare (t_hash t) (t_index t) s (t_oracle t) W) H) as ([_ L _] & _).
+  destruct (exec_top_ok _ _ _ _ _ _ _ (wf_prepare (t_hash t) (t_index t) s (t_oracle t) (t_gas t) W) H) as ([_ L _] & _).
   rewrite (L h); auto.
 Qed.
 
@@ -106,7 +106,7 @@ Lemma failed_tx_logs progs fuel target value th ti orig orc s o l s' :
   forall h, logs (dat s') h = logs (dat s) h.
 Proof.
   intros W H F h. unfold exec_tx in H.
-  destruct (exec_top_ok _ _ _ _ _ _ _ (wf_prepare th ti s orc W) H) as (_ & N).
+  destruct (exec_top_ok _ _ _ _ _ _ _ (wf_prepare th ti s orc big_gas W) H) as (_ & N).
   specialize (N F). cbn in N. destruct N as (_ & _ & _ & _ & _ & _ & _ & _ & _ & L & _). rewrite L. reflexivity.
 Qed.
 
@@ -237,7 +237,7 @@ Fixpoint exec_txs (progs : list prog) (fuel : nat) (ts : list tx) (s : state) : 
 Lemma exec_tx_wf progs fuel t s o l s' : wf s -> exec_tx progs fuel t s = (o, l, s') -> wf s'.
 Proof.
   intros W H. unfold exec_tx in H.
-  destruct (exec_top_ok _ _ _ _ _ _ _ (wf_prepare (t_hash t) (t_index t) s (t_oracle t) W) H) as ([_ _ W'] & _). exact W'.
+  destruct (exec_top_ok _ _ _ _ _ _ _ (wf_prepare (t_hash t) (t_index t) s (t_oracle t) (t_gas t) W) H) as ([_ _ W'] & _). exact W'.
 Qed.
 
 (* the logs a receipt takes (GetLogs of its hash right after its transaction) are not changed by any later
@@ -255,3 +255,34 @@ Qed.
 
 Lemma wf_fresh d th ti orc : wf (mkState d [] [] 0 th ti orc).
 Proof. constructor. Qed.
+
+(* ---------- gas ---------- *)
+(* no call tree hands back more gas than it was given (the frame-level, cross-frame form of "gas is bounded") *)
+Lemma gas_bounded_call progs fuel cx kind target value s o l s' :
+  wf s -> do_call (run progs fuel) cx kind target value s = (o, l, s') -> gas s' <= gas s.
+Proof. intros W H. destruct (do_call_ok progs (run progs fuel) (run_ok progs fuel) _ _ _ _ _ _ _ _ W H) as (_ & _ & _ & L). exact L. Qed.
+
+Lemma gas_bounded_create progs fuel cx value init s o l s' :
+  wf s -> do_create progs (run progs fuel) cx value init s = (o, l, s') -> gas s' <= gas s.
+Proof. intros W H. destruct (do_create_ok progs (run progs fuel) (run_ok progs fuel) _ _ _ _ _ _ _ W H) as (_ & _ & L). exact L. Qed.
+
+Lemma gas_bounded_run progs fuel cx c s o l s' :
+  wf s -> run progs fuel cx c s = (o, l, s') -> gas s' <= gas s.
+Proof. intros W H. destruct (run_ok progs fuel _ _ _ _ _ _ W H) as (_ & _ & L). exact L. Qed.
+
+Lemma gas_bounded_tx progs fuel t s o l s' :
+  wf s -> exec_tx progs fuel t s = (o, l, s') -> gas s' <= t_gas t.
+Proof.
+  intros W H. unfold exec_tx, exec_top in H.
+  pose proof (wf_prepare (t_hash t) (t_index t) s (t_oracle t) (t_gas t) W) as W1.
+  destruct (t_kind t).
+  - apply (gas_bounded_call _ _ _ _ _ _ _ _ _ _ W1) in H. exact H.
+  - apply (gas_bounded_create _ _ _ _ _ _ _ _ _ W1) in H. exact H.
+  - inversion H; subst. cbn. lia.
+Qed.
+
+(* a frame that was entered (its Snapshot taken) and ended with an error other than REVERT hands back no gas *)
+Lemma failed_frame_no_gas progs fuel cx payer target value s c l s' :
+  wf s -> call_body (run progs fuel) cx (fst (snapshot s)) payer target value (snd (snapshot s)) = (OErr c, l, s') ->
+  gas s' = 0.
+Proof. intros W H. eapply call_body_error_no_gas; eauto. apply run_ok. Qed.
